@@ -70,3 +70,11 @@ Proof. exists (upd ex_graph false true false [true; false] OEdge (KInt 2) [] 1%Q
 Theorem old_accepts_domain_MinPathCoverCycles_refuted_lowerbound_ignores_starts :
   exists i, in_domain_MinPathCoverCycles i = true /\ validate_MinPathCoverCycles i = RaiseValueError.
 Proof. exists (upd ex_graph false false false [true; true] OEdge (KInt 2) [] 1%Q [true]). vm_compute. auto. Qed.
+(* 003f186 — node mode, edge-list constraint with a non-iterable item -> TypeError *)
+Theorem old_validate_kFlowDecomp_refuted_non_tuple_item :
+  exists i, in_domain_kFlowDecomp i = false /\ validate_kFlowDecomp i = RaiseOther EType.
+Proof.
+  exists (upd dag true true false [true; true] ONode (KInt 2)
+            [ {| c_is_list := true; c_items := [ {| it_kind := IPair; it_in_graph := true |}; {| it_kind := IInt; it_in_graph := false |} ]; c_greedy_ok := true |} ] 1%Q []).
+  vm_compute. auto.
+Qed.
